@@ -437,8 +437,11 @@ def rule_sqz(repo, tier):
                 for st in body:
                     if isinstance(st, ast.If):
                         g = {x.id for x in ast.walk(st.test) if isinstance(x, ast.Name)} | {dotted(x) for x in ast.walk(st.test) if isinstance(x, ast.Attribute)}
-                        ranky = any(isinstance(x, ast.Attribute) and x.attr in ('ndim', 'shape') or
-                                    (isinstance(x, ast.Call) and isinstance(x.func, ast.Attribute) and x.func.attr in ('dim', 'size')) for x in ast.walk(st.test))
+                        # a RANK test (ndim / dim() / len(shape)); a test of an EXTENT (size(-2) == 1, shape[-2] == 1) is true for one-dimensional models as well
+                        ranky = any((isinstance(x, ast.Attribute) and x.attr == 'ndim') or
+                                    (isinstance(x, ast.Call) and isinstance(x.func, ast.Attribute) and x.func.attr in ('dim', 'ndimension') and not x.args) or
+                                    (isinstance(x, ast.Call) and isinstance(x.func, ast.Name) and x.func.id == 'len' and x.args and isinstance(x.args[0], ast.Attribute)
+                                     and x.args[0].attr == 'shape') for x in ast.walk(st.test))
                         visit(st.body, guards | (g if ranky else set()))
                         visit(st.orelse, guards | (g if ranky else set()))
                         continue
